@@ -1,4 +1,5 @@
 import IgVerif.Lemmas.MergeOrder
+import IgVerif.Lemmas.ModuleSearch
 import IgVerif.Schema
 /-!
 # C13 — loading several libraries yields one consistent database
@@ -94,6 +95,24 @@ theorem c13_file_range (sch : Schema) (rc : RemapCfg) (temp : Db) (next : Int) :
     (temp.remapIndices sch rc next).1.nextIndex = next + temp.wrappers.length + temp.functions.length +
       temp.types.length + temp.manifests.length + temp.elements.length + temp.makeSeqs.length :=
   ⟨remapIndices_wrappers sch rc temp next, (remapIndices_ranges sch rc temp next).2.2⟩
+
+/-- **The next free index never moves back**, whatever is requested, looked up or loaded — a file
+loaded through a module definition with a reserved range leaves it alone, a plain file moves it
+past its own entries, `merge_from` does not touch it.  (Hence no range is ever handed out twice.) -/
+theorem c13_next_index_monotone (c : Cfg) (s : St) (op : QOp) :
+    s.db.nextIndex ≤ (qstep c s op).db.nextIndex :=
+  next_mono_qstep c s op
+
+/-- **Reserved ranges are respected in every reachable state**: the ranges of the registered
+modules are in registration order, pairwise disjoint, and all below the next free index — which
+is where the next plain file (`c13_file_range`) or the next module (`c13_module_range`) is put. -/
+theorem c13_ranges_disjoint (c : Cfg) (ops : List QOp) :
+    let s := ops.foldl (qstep c) {}
+    (∀ i j, i < j → j < s.modules.length → mnext s.modules i ≤ mfirst s.modules j) ∧
+    (∀ i, i < s.modules.length → mfirst s.modules i ≤ mnext s.modules i ∧ mnext s.modules i ≤ s.db.nextIndex) := by
+  intro s
+  have h := modInv_reachable c ops
+  exact ⟨h.ok.ordered, fun i hi => ⟨h.ok.wf i hi, h.below i hi⟩⟩
 
 /-- **Cache coherence for every history** of requests, lookups and other queries. -/
 theorem c13_cache_coherent (c : Cfg) (ops : List QOp) : CacheInv c (ops.foldl (qstep c) {}) :=
